@@ -179,9 +179,11 @@ class ModifiedHalfNormal(Distribution):
         return self._MHN_sample_gamma_proposal(alpha, beta, gamma, rng=rng)
 
     def _sample(self, N, rng=None):
-        if hasattr(self.alpha, '__getitem__'):
-            return np.array([self._MHN_sample(self.alpha[i], self.beta[i], self.gamma[i], rng=rng) for i in range(N)])
-        else:
-            return np.array([self._MHN_sample(self.alpha, self.beta, self.gamma, rng=rng) for i in range(N)])
+        # One draw per component (rows) and per requested sample (columns).
+        # Scalar parameters are shared by all components; vector parameters are indexed by component.
+        def component(par, j):
+            return par[j] if hasattr(par, '__getitem__') else par
+        return np.array([[self._MHN_sample(component(self.alpha, j), component(self.beta, j), component(self.gamma, j), rng=rng)
+                          for j in range(self.dim)] for i in range(N)]).T
 
             
